@@ -716,3 +716,23 @@ func evalOnEdge(v ssa.Value, b *ssa.BasicBlock, pred int) (bool, bool) {
 	}
 	return false, false
 }
+
+// retOperand returns the i-th result of a return, looking through the spill
+// that go/ssa introduces in functions with defer (`*t0 = v; rundefers; t = *t0; return t`).
+func retOperand(ret *ssa.Return, i int) ssa.Value {
+	if i >= len(ret.Results) {
+		return nil
+	}
+	v := ret.Results[i]
+	if u, ok := v.(*ssa.UnOp); ok && u.Op == token.MUL {
+		if al, ok := u.X.(*ssa.Alloc); ok && !al.Heap {
+			blk := ret.Block()
+			for k := len(blk.Instrs) - 1; k >= 0; k-- {
+				if st, ok := blk.Instrs[k].(*ssa.Store); ok && st.Addr == al {
+					return st.Val
+				}
+			}
+		}
+	}
+	return v
+}
